@@ -393,6 +393,14 @@ class Atomic:
                     continue
             succs = t.successors()
             live = [s for s in succs if body.blocks[s].term.k != "unreachable" or body.blocks[s].stmts]
+            if not mutation_blocks:
+                # pure function: the validation is visible in what is returned (an error value on one side only)
+                errs = [s for s in live if self._region_reports_error(body, (bi, s))]
+                okk = [s for s in live if s not in errs]
+                if errs and okk:
+                    for s in okk:
+                        edges.append((bi, s))
+                continue
             err = [s for s in live if not (body.reachable_from(s) & mutation_blocks)]
             okk = [s for s in live if s not in err]
             if not err:
@@ -400,6 +408,17 @@ class Atomic:
             for s in okk:
                 edges.append((bi, s))
         return edges
+
+    @staticmethod
+    def _region_reports_error(body, edge):
+        for bi in body.region(edge):
+            blk = body.blocks[bi]
+            for st in blk.stmts:
+                if st.k == "assign" and st.rv["k"] == "agg" and st.rv.get("agg") == "adt" and st.rv.get("variant") in ("Err", "None", "Break"):
+                    return True
+            if blk.term.k == "call" and blk.term.callee.method == "from_residual":
+                return True
+        return False
 
     def validator(self, g, k, _stack=()):
         """crate function g validates its parameter k: it has a validation edge for k and every mutation site in
@@ -728,3 +747,166 @@ def zero_test_edges(body, pv, is_subject):
                 else:
                     out.append({"switch_bb": bi, "zero_edges": false_edges, "nonzero_edges": true_edges, "line": t.line})
     return out
+
+
+# =====================================================================================================
+# GUARD sites, SELECT, DISPATCH helpers
+# =====================================================================================================
+def float_div_sites(body):
+    """float divisions and ln calls of a body: dict(kind 'div'|'ln', pos, num, den|arg, line)"""
+    out = []
+    for pos, s in body.stmts():
+        if s.k == "assign" and s.rv["k"] == "bin" and s.rv["op"] == "Div" and s.rv.get("lty") in ("f32", "f64"):
+            out.append({"kind": "div", "pos": pos, "num": s.rv["l"], "den": s.rv["r"], "line": s.line, "form": "binop"})
+    for bi, t in body.calls():
+        pos = (bi, len(body.blocks[bi].stmts))
+        c = t.callee
+        if c.trait == "std::ops::Div" and c.method == "div" and len(t.args) == 2:
+            st = (c.self_ty or {}).get("s", "")
+            if "f32" in st or "f64" in st:
+                out.append({"kind": "div", "pos": pos, "num": t.args[0], "den": t.args[1], "line": t.line, "form": "trait"})
+        elif c.method == "ln" and re.search(r"^std::f(32|64)::<impl f(32|64)>::ln$", c.deff or "") and t.args:
+            out.append({"kind": "ln", "pos": pos, "arg": t.args[0], "line": t.line, "form": "call"})
+    return out
+
+
+CMP_OPS = {"Gt": ">", "Lt": "<", "Ge": ">=", "Le": "<="}
+
+
+def comparisons(body, pv):
+    """bool locals defined by an ordering comparison: local -> (op, L operand, R operand, pos)"""
+    out = {}
+    for pos, s in body.stmts():
+        if s.k == "assign" and s.rv["k"] == "bin" and s.rv["op"] in CMP_OPS and s.place.is_local():
+            out[s.place.local] = (s.rv["op"], s.rv["l"], s.rv["r"], pos)
+    for bi, t in body.calls():
+        c = t.callee
+        if c.trait == "std::cmp::PartialOrd" and c.method in ("gt", "lt", "ge", "le") and len(t.args) == 2 and t.dest.is_local():
+            out[t.dest.local] = (c.method.capitalize(), t.args[0], t.args[1], (bi, len(body.blocks[bi].stmts)))
+    return out
+
+
+def classify_selection(body, pv, key_atoms=None):
+    """For a body that returns one of two values under an ordering comparison of (projections of) them:
+    returns list of dict(kind 'min'|'max'|None, detail).  `same value` is decided by provenance.
+    key_atoms(atoms) -> frozenset of hashable identities used to compare 'the same operand' (default: params)."""
+    if key_atoms is None:
+        def key_atoms(atoms):
+            return frozenset((a[2]) for a in atoms if a[0] == "param" and a[1] == body.id)
+    cmps = comparisons(body, pv)
+    res = []
+    for bi in sorted(body.reach):
+        t = body.blocks[bi].term
+        if t.k != "switch" or t.discr.place is None:
+            continue
+        dl = t.discr.place.local
+        # follow single copies
+        root = dl
+        info = cmps.get(root)
+        if info is None:
+            for kind, pos, d in pv.defs(body).get(dl, []):
+                if kind == "assign" and d.rv["k"] == "use" and d.rv["op"].place is not None:
+                    info = cmps.get(d.rv["op"].place.local)
+        if info is None:
+            continue
+        op, lo, ro, cpos = info
+        la = key_atoms(pv.of_operand(body, lo))
+        ra = key_atoms(pv.of_operand(body, ro))
+        if not la or not ra or la == ra:
+            res.append({"kind": None, "detail": "compared operands are not two distinct inputs", "bb": bi, "line": t.line})
+            continue
+        vals = [v for v, _ in t.targets]
+        true_tgts = [tg for v, tg in t.targets if v == 1] or ([t.otherwise] if vals == [0] else [])
+        false_tgts = [tg for v, tg in t.targets if v == 0]
+        if not true_tgts or not false_tgts:
+            continue
+
+        def returned(tg):
+            region = body.region((bi, tg))
+            atoms = pv.of_local(body, 0, def_filter=lambda b, pos: (b.id != body.id) or (pos[0] in region))
+            return key_atoms(atoms)
+
+        rt = returned(true_tgts[0])
+        rf = returned(false_tgts[0])
+        # which operand is returned on the true edge?
+        def side(r):
+            if r and r <= la and not (r & ra):
+                return "L"
+            if r and r <= ra and not (r & la):
+                return "R"
+            return None
+        st, sf = side(rt), side(rf)
+        if st is None or sf is None or st == sf:
+            res.append({"kind": None, "detail": "branches do not return the two compared values (true:%s false:%s)" % (sorted(rt), sorted(rf)), "bb": bi, "line": t.line})
+            continue
+        greater_on_true = op in ("Gt", "Ge")  # L op R true => L is the greater one
+        if greater_on_true:
+            kind = "max" if st == "L" else "min"
+        else:
+            kind = "min" if st == "L" else "max"
+        res.append({"kind": kind, "detail": "returns the %s operand when L %s R" % ("left" if st == "L" else "right", CMP_OPS[op]), "bb": bi, "line": t.line})
+    return res
+
+
+def enum_arms(prog, body, enum_path):
+    """switches of `body` on the discriminant of a value of enum `enum_path`:
+    returns list of dict(bb, arms={variant_name: edge})"""
+    adt = prog.adts.get(enum_path)
+    if adt is None:
+        return []
+    names = [v["name"] for v in adt["variants"]]
+    out = []
+    defs = {}
+    for pos, s in body.stmts():
+        if s.k == "assign" and s.rv["k"] == "discr" and s.place.is_local():
+            defs[s.place.local] = s.rv["place"]
+    for bi in sorted(body.reach):
+        t = body.blocks[bi].term
+        if t.k != "switch" or t.discr.place is None:
+            continue
+        pl = defs.get(t.discr.place.local)
+        if pl is None:
+            continue
+        # type of the matched place
+        pt = place_type_str(prog, body, pl)
+        if pt is None or enum_path.rsplit("::", 1)[-1] not in pt:
+            continue
+        arms = {}
+        for v, tg in t.targets:
+            if v < len(names):
+                arms[names[v]] = (bi, tg)
+        listed = {v for v, _ in t.targets}
+        rest = [n for i, n in enumerate(names) if i not in listed]
+        if len(rest) == 1 and body.blocks[t.otherwise].term.k != "unreachable":
+            arms[rest[0]] = (bi, t.otherwise)
+        out.append({"bb": bi, "arms": arms, "line": t.line})
+    return out
+
+
+def norm_name(s):
+    return re.sub(r"[^a-z0-9]", "", s.lower())
+
+
+def place_type_str(prog, body, place):
+    """type (as a string) of a place, resolved through the crate's ADT table; None if unknown"""
+    cur = body.locals[place.local]["s"]
+    for e in place.fields():
+        if e == "*":
+            continue
+        if e[0] == "f":
+            adt = prog.adts.get(e[2])
+            if adt is None:
+                return None
+            ft = None
+            for v in adt["variants"]:
+                for f in v["fields"]:
+                    if f["name"] == e[1]:
+                        ft = f["ty"]
+            if ft is None:
+                return None
+            cur = ft
+        elif e[0] == "dc":
+            continue
+        else:
+            return None
+    return cur
